@@ -4,6 +4,7 @@ import (
 	"fmt"
 	"io"
 	iofs "io/fs"
+	"os"
 	"sort"
 	"strings"
 	"syscall"
@@ -369,17 +370,17 @@ func (f *FS) RemoveAll(cwd, path string) error {
 func (f *FS) Rename(cwd, oldp, newp string) error {
 	op, oname, on, oabs, e := f.walk(cwd, oldp)
 	if e != 0 {
-		return &linkError{"rename", oldp, newp, e}
+		return &os.LinkError{Op: "rename", Old: oldp, New: newp, Err: e}
 	}
 	if on == nil {
-		return &linkError{"rename", oldp, newp, syscall.ENOENT}
+		return &os.LinkError{Op: "rename", Old: oldp, New: newp, Err: syscall.ENOENT}
 	}
 	np, nname, nn, nabs, e := f.walk(cwd, newp)
 	if e != 0 {
-		return &linkError{"rename", oldp, newp, e}
+		return &os.LinkError{Op: "rename", Old: oldp, New: newp, Err: e}
 	}
 	if op == nil || np == nil {
-		return &linkError{"rename", oldp, newp, syscall.EBUSY}
+		return &os.LinkError{Op: "rename", Old: oldp, New: newp, Err: syscall.EBUSY}
 	}
 	if nn == on {
 		return nil
@@ -387,17 +388,20 @@ func (f *FS) Rename(cwd, oldp, newp string) error {
 	if nn != nil {
 		if on.Kind == KDir {
 			if nn.Kind != KDir {
-				return &linkError{"rename", oldp, newp, syscall.ENOTDIR}
+				return &os.LinkError{Op: "rename", Old: oldp, New: newp, Err: syscall.ENOTDIR}
 			}
 			if len(nn.Ents) > 0 {
-				return &linkError{"rename", oldp, newp, syscall.ENOTEMPTY}
+				return &os.LinkError{Op: "rename", Old: oldp, New: newp, Err: syscall.ENOTEMPTY}
 			}
 		} else if nn.Kind == KDir {
-			return &linkError{"rename", oldp, newp, syscall.EISDIR}
+			return &os.LinkError{Op: "rename", Old: oldp, New: newp, Err: syscall.EISDIR}
 		}
 	}
+	if deviceOf(oabs) != deviceOf(nabs) {
+		return &os.LinkError{Op: "rename", Old: oldp, New: newp, Err: syscall.EXDEV}
+	}
 	if on.Kind == KDir && strings.HasPrefix(nabs+"/", oabs+"/") {
-		return &linkError{"rename", oldp, newp, syscall.EINVAL}
+		return &os.LinkError{Op: "rename", Old: oldp, New: newp, Err: syscall.EINVAL}
 	}
 	delete(op.Ents, oname)
 	np.Ents[nname] = on
@@ -405,13 +409,18 @@ func (f *FS) Rename(cwd, oldp, newp string) error {
 	return nil
 }
 
-type linkError struct {
-	Op, Old, New string
-	Err          syscall.Errno
-}
+// DeviceRoots: absolute directories that are mount points of other file
+// systems; a rename across a device boundary fails with EXDEV as on Linux.
+var DeviceRoots = []string{"/mnt"}
 
-func (e *linkError) Error() string { return e.Op + " " + e.Old + " " + e.New + ": " + e.Err.Error() }
-func (e *linkError) Unwrap() error { return e.Err }
+func deviceOf(abs string) string {
+	for _, d := range DeviceRoots {
+		if abs == d || strings.HasPrefix(abs, d+"/") {
+			return d
+		}
+	}
+	return "/"
+}
 
 func (f *FS) ReadDirNames(cwd, path string) ([]string, error) {
 	n, err := f.Lookup(cwd, path)
